@@ -187,6 +187,7 @@ def run_shard(spec, acc, ctx):
     if spec.get("kind") == "wide":
         run_wide(spec, acc, ctx)
         return
+    gen.MIXED_ID_SIZES = True
     scheme = spec["scheme"]
     first = True
     for cid, cfg, cls, db, info in sse.iter_cases(spec, ctx, scales=[6, 16, 40],
